@@ -26,6 +26,9 @@ import (
 
 const callTimeout = 4 * time.Second
 
+// registrySnapshot: what SuiteConfigFromRaws answered for every advertised name before this process executed any op
+var registrySnapshot = map[string]otp.SuiteConfig{}
+
 func unhex(s string) ([]byte, bool) {
 	if s == "-" {
 		return []byte{}, true
@@ -733,6 +736,11 @@ func runImplRaw(line string) string {
 		if before != after {
 			// the registry answer changed because of an unrelated call: results depend on the call history (C11)
 			hd = " HISTORY-DEPENDENT"
+		}
+		if snap, ok := registrySnapshot[string(raw)]; ok && (before != snap || after != snap) {
+			// lookup by name no longer returns what it returned when the process started: some earlier call of this run wrote
+			// into the registry (C12, C15)
+			hd += " HISTORY-DEPENDENT(REGISTRY-MODIFIED)"
 		}
 		return m + " " + k + " " + showCfg(before) + hd
 	case "newsuite":
